@@ -25,7 +25,10 @@ func c01Scenario(r *rand.Rand, i int) relayScenario {
 	sc.Push = r.Intn(2) == 0
 	if sc.Push {
 		sc.PushDead = []int{0, 1, 0, 2}[(i/2)%4]
+		sc.PushMore = []int{0, 0, 1, 2}[(i/3)%4] // several healthy targets: each gets the whole stream
 	}
+	// RTMP players acknowledge what they received (here far more often than the announced window asks for)
+	sc.AckEvery = []int{0, 3000, 40000}[(i/5)%3]
 	sc.PubChunk = []int{128, 129, 1000, 4096, 60000}[r.Intn(5)]
 	sh := gen.Shape{Name: "av", Video: true, Audio: true, Meta: true, MetaSdf: r.Intn(2) == 0, Gops: 4 + r.Intn(5), GopLen: 4 + r.Intn(12), AudioPerVid: r.Intn(3),
 		MidMeta: r.Intn(2) == 0, Empties: r.Intn(2) == 0, TsMode: r.Intn(4)}
@@ -90,7 +93,7 @@ func scenarioDesc(sc relayScenario) map[string]interface{} {
 		cons = append(cons, fmt.Sprintf("%s@%d..%d", p.Kind, p.JoinAt, p.LeaveAt))
 	}
 	return map[string]interface{}{"rtmp_gop": sc.Conf.RtmpGop, "gop_cap": sc.Conf.RtmpGopCap, "merge_write": sc.Conf.MergeWrite, "flv_gop": sc.Conf.FlvGop,
-		"record": sc.Conf.RecFlv, "push": sc.Push, "push_dead_targets": sc.PushDead, "pub_chunk": sc.PubChunk, "shape": sc.Shape.String(), "consumers": cons, "fmt_mode": sc.FmtMode}
+		"record": sc.Conf.RecFlv, "push": sc.Push, "push_dead_targets": sc.PushDead, "push_healthy_targets_extra": sc.PushMore, "rtmp_ack_every": sc.AckEvery, "pub_chunk": sc.PubChunk, "shape": sc.Shape.String(), "consumers": cons, "fmt_mode": sc.FmtMode}
 }
 
 // c01Judge applies the C01 oracle to one consumer history.
@@ -281,7 +284,7 @@ func init() {
 		ID:          "C01",
 		NumCases:    func(tier string, seed int64) int { return c01Sizes(tier) },
 		CaseTimeout: func(string) time.Duration { return 3 * time.Minute },
-		Rule: "one case = one whole-server scenario: seeded config (rtmp gop_num 0..3 × per-GOP cap {0,1,3,10} × merge_write_size {0,1,1024,8192,65536}, flv gop, recording, relay push to a stub target, in half of those cases next to one or two targets that are down), a reference RTMP publisher with its own chunk size and header formats sending 60–400 tagged messages (A/V/metadata with and without @setDataFrame, zero-length messages, lengths around multiples of 4096 and of the publisher's chunk size, timestamps across 0xFFFFFF / 2^32 / non-monotonic), 3–7 RTMP / HTTP-FLV / WS-FLV consumers joining and leaving at seeded message indices (exact admission index via the stream hook's processed-count clock). " +
+		Rule: "one case = one whole-server scenario: seeded config (rtmp gop_num 0..3 × per-GOP cap {0,1,3,10} × merge_write_size {0,1,1024,8192,65536}, flv gop, recording, relay push to a stub target, in half of those cases next to one or two targets that are down and/or one or two further healthy targets, each of which must get the whole stream); RTMP consumers that acknowledge received bytes (message type 3) every 3 000 / 40 000 bytes in two thirds of the cases, a reference RTMP publisher with its own chunk size and header formats sending 60–400 tagged messages (A/V/metadata with and without @setDataFrame, zero-length messages, lengths around multiples of 4096 and of the publisher's chunk size, timestamps across 0xFFFFFF / 2^32 / non-monotonic), 3–7 RTMP / HTTP-FLV / WS-FLV consumers joining and leaving at seeded message indices (exact admission index via the stream hook's processed-count clock). " +
 			"one case in eight adds a second publisher taking over the name, with RTMP/FLV/WS-FLV joiners placed exactly between the two: none of their items may be a message of the first publisher. oracle per consumer: every item matches a published message (content hash), same type and ms timestamp, items published after admission form one contiguous in-order run without duplicates that starts no later than the first deliverable key frame and ends at the publisher's last message (RTMP: minus < merge_write_size). cell = consumer kind × config cell × join class.",
 		Assumptions: []string{"reference RTMP client/chunk codec, FLV and WebSocket parsers (harness/ref)", "publisher is paced so that no 1024-entry consumer queue can fill (no back-pressure)",
 			"the stream hook's OnMsg is called inside lal's fan-out critical section (read from the code); used only as a clock"},
@@ -303,7 +306,10 @@ func init() {
 			}
 			if sc.Push && !res.PushSeen {
 				c.Violate("push/never-attached", fmt.Sprintf("relay push target never received a publish although a publisher was accepted | %v", scenarioDesc(sc)), nil)
+			} else if sc.Push && len(res.PushTargetsMissing) > 0 {
+				c.Violate("push/target-never-attached", fmt.Sprintf("%d of %d healthy relay push targets never received a publish (targets %v) | %v", len(res.PushTargetsMissing), 1+sc.PushMore, res.PushTargetsMissing, scenarioDesc(sc)), nil)
 			}
+			c.Count("push_targets_served", res.PushTargetsSeen)
 			for _, rec := range res.Consumers {
 				if boundary >= 0 {
 					// only the consumers that joined the second publisher are judged here (what the
